@@ -282,6 +282,9 @@ theorem segOk_fs_safe (f : String) : ∀ (evs : List Ev) (apps : List Approval),
     | nest g w' a' inner =>
       simp only [List.mem_cons, reduceCtorEq, false_or] at hm
       exact ih _ hs.2 fn w p hm
+    | edsave st' name =>
+      simp only [List.mem_cons, reduceCtorEq, false_or] at hm
+      exact ih _ hs.2 fn w p hm
     | lp _ _ => exact absurd hs (by simp [segOk])
     | il _ _ => exact absurd hs (by simp [segOk])
     | cvp _ _ _ => exact absurd hs (by simp [segOk])
